@@ -51,11 +51,36 @@ def stmts_in_order(block):
     if b['expr'] is not None: out.append({'k': 'Expr', 'expr': b['expr']})
     return out
 
+
+def sorts_ascending_by_id(call, crate):
+    """is this call a sort of a sequence of NamedSymbol ascending by `id`?  sort_by(|a, b| a.id.cmp(&b.id)) in its stable/unstable
+    forms, or sort_by_key(|v| v.id) in its stable/unstable/cached forms"""
+    n = (callee_name(call) or '').split('::')[-1]
+    if call['k'] != 'Call' or len(call['args']) != 2: return False
+    cl = [x for x in walk(call['args'][1]) if x['k'] == 'Closure']
+    if not cl: return False
+    ct = crate.ithir.get(canon(cl[0]['def']))
+    if ct is None: return False
+    pn = [unwrap_pat(p['pat']).get('var') for p in ct['params'][1:]]
+    b = ct['body']
+    while b['k'] in ('Use', 'NeverToAny') or (b['k'] == 'Block' and not b['stmts'] and b['expr'] is not None): b = b['source'] if b['k'] != 'Block' else b['expr']
+    if n in ('sort_by', 'sort_unstable_by') and len(pn) == 2:
+        b = strip(b)
+        if b['k'] == 'Call' and callee_decl(b) == 'std::cmp::Ord::cmp':
+            a0, a1 = strip(b['args'][0]), strip(b['args'][1])
+            return a0['k'] == 'Field' and a0.get('field_name') == 'id' and a1['k'] == 'Field' and a1.get('field_name') == 'id' and \
+                root_var(a0['lhs']) == pn[0] and root_var(a1['lhs']) == pn[1]
+        return False
+    if n in ('sort_by_key', 'sort_unstable_by_key', 'sort_by_cached_key') and len(pn) == 1:
+        b = strip(b)
+        return b['k'] == 'Field' and b.get('field_name') == 'id' and root_var(b['lhs']) == pn[0]
+    return False
+
 # ------------------------------------------------------------------------------------------------ X1
 def rule_X1_printers(F, R):
     binc = F.bin()
     for fn in ('rsbdd::print_truth_table_recursive', 'rsbdd::print_true_vars_recursive'):
-        t = binc.thir.get(fn)
+        t = binc.ithir.get(fn)
         if t is None:
             R.violation('%s / X1 / anchor' % fn, 'UNDECIDABLE', 'printer %s not found' % fn); continue
         cb = choice_bindings(t)
@@ -101,7 +126,7 @@ def rule_X1_printers(F, R):
 def rule_X1_dot(F, R):
     lib = F.lib()
     G = 'rsbdd::bdd_io::BDDGraph::'
-    t = lib.thir.get(G + 'edges_recursive')
+    t = lib.ithir.get(G + 'edges_recursive')
     if t is None:
         R.violation(G + 'edges_recursive / X1 / anchor', 'UNDECIDABLE', 'edges_recursive not found'); return
     cb = choice_bindings(t)
@@ -118,10 +143,10 @@ def rule_X1_dot(F, R):
                     R.violation(G + 'edges_recursive / X1 / edge #%d' % n, 'X1', 'edge flagged %s leads to the %s' % (lit['value'], {0: 'true-branch', 2: 'false-branch'}.get(child, '?')), e['loc'])
     if n < 2: R.violation(G + 'edges_recursive / X1 / VACUITY', 'VACUITY', 'expected 2 edge tuples, found %d' % n)
     # edge_label: true -> "T", false -> "F"
-    lab = [k for k in lib.thir if k.endswith('Labeller>::edge_label') and 'BDDGraph' in k]
+    lab = [k for k in lib.ithir if k.endswith('Labeller>::edge_label') and 'BDDGraph' in k]
     ok = False
     if lab:
-        for e in walk(lib.thir[lab[0]]['body']):
+        for e in walk(lib.ithir[lab[0]]['body']):
             if e['k'] == 'If':
                 th = [x['value'] for x in walk(e['then']) if x['k'] == 'Literal' and x.get('lit') == 'Str']
                 el = [x['value'] for x in walk(e['else']) if x['k'] == 'Literal' and x.get('lit') == 'Str'] if e['else'] else []
@@ -133,11 +158,11 @@ def rule_X1_dot(F, R):
     R.count('X1:edge-label'); R.obligation(ok, 'X1 edge_label')
     if not ok: R.violation('rsbdd::bdd_io::BDDGraph / X1 / edge_label', 'X1', 'edge label is not "T" for the true edge and "F" for the false edge')
     # node_label: leaf labels
-    lab = [k for k in lib.thir if k.endswith('Labeller>::node_label') and 'BDDGraph' in k]
+    lab = [k for k in lib.ithir if k.endswith('Labeller>::node_label') and 'BDDGraph' in k]
     ok = False
     if lab:
         got = {}
-        for m in walk(lib.thir[lab[0]]['body']):
+        for m in walk(lib.ithir[lab[0]]['body']):
             if m['k'] == 'Match':
                 for a in m['arms']:
                     p = unwrap_pat(a['pat'])
@@ -147,11 +172,11 @@ def rule_X1_dot(F, R):
     R.count('X1:leaf-labels'); R.obligation(ok, 'X1 node_label')
     if not ok: R.violation('rsbdd::bdd_io::BDDGraph / X1 / node_label', 'X1', 'leaf nodes are not labelled "true" / "false" on the matching variants')
     # node_id: n_true / n_false on the matching variants
-    nid = [k for k in lib.thir if k.endswith('Labeller>::node_id') and 'BDDGraph' in k]
+    nid = [k for k in lib.ithir if k.endswith('Labeller>::node_id') and 'BDDGraph' in k]
     ok = False
     if nid:
         got = {}
-        for m in walk(lib.thir[nid[0]]['body']):
+        for m in walk(lib.ithir[nid[0]]['body']):
             if m['k'] == 'Match':
                 for a in m['arms']:
                     p = unwrap_pat(a['pat'])
@@ -229,7 +254,7 @@ def rule_X2(F, R, parts=('table', 'dot')):
 def _x2_table(F, R, binc, FILTERS):
     # (a) truth-table rows
     fn = 'rsbdd::print_truth_table_recursive'
-    t = binc.thir.get(fn)
+    t = binc.ithir.get(fn)
     arm, var, arms = leaf_arm_predicate(t, fn, R, 'row') if t else (None, None, None)
     if arm is None:
         R.violation('%s / X2 / anchor' % fn, 'UNDECIDABLE', 'cannot find the guarded leaf arm of the truth-table printer')
@@ -251,7 +276,7 @@ def _x2_table(F, R, binc, FILTERS):
                     R.violation('%s / X2 / filter=%s leaf=%s' % (fn, f, leaf), 'X2', 'with filter %s a row ending in %s is %s; it must be %s' % (f, leaf, 'printed' if got else 'omitted', 'printed' if want else 'omitted'), arm['guard'].get('loc'))
     # (b) -v prints only at True
     fn = 'rsbdd::print_true_vars_recursive'
-    t = binc.thir.get(fn)
+    t = binc.ithir.get(fn)
     if t:
         printing = []
         for m in walk(t['body']):
@@ -267,7 +292,7 @@ def _x2_table(F, R, binc, FILTERS):
 def _x2_dot(F, R, lib, FILTERS):
     # (c) dot: declared leaf <=> same predicate; edge into a leaf emitted <=> that leaf declared
     G = 'rsbdd::bdd_io::BDDGraph::'
-    t = lib.thir.get(G + 'nodes_recursive')
+    t = lib.ithir.get(G + 'nodes_recursive')
     arm, var, arms = leaf_arm_predicate(t, G + 'nodes_recursive', R, 'node') if t else (None, None, None)
     declared = {}
     if arm is None:
@@ -285,7 +310,7 @@ def _x2_dot(F, R, lib, FILTERS):
                 R.count('X2:dot-leaf-cases'); R.obligation(got == want, 'X2 dotleaf %s %s' % (f, leaf))
                 if got != want:
                     R.violation(G + 'nodes_recursive / X2 / filter=%s leaf=%s' % (f, leaf), 'X2', 'with filter %s the %s leaf is %s; it must be %s' % (f, leaf, 'declared' if got else 'omitted', 'declared' if want else 'omitted'))
-    t = lib.thir.get(G + 'edges_recursive')
+    t = lib.ithir.get(G + 'edges_recursive')
     if t:
         cb = choice_bindings(t)
         n = 0
@@ -315,7 +340,7 @@ def rule_X3(F, R):
     binc, lib = F.bin(), F.lib()
     PF = 'rsbdd::parser::ParsedFormula::'
     # (1) to_free_index returns a position in free_vars
-    t = lib.thir.get(PF + 'to_free_index')
+    t = lib.ithir.get(PF + 'to_free_index')
     ok = False; why = 'to_free_index not found'
     if t:
         calls = [e for e in walk(t['body']) if e['k'] == 'Call']
@@ -342,7 +367,7 @@ def rule_X3(F, R):
                 cl = [x for x in walk(srch[0]['args'][1]) if x['k'] == 'Closure']
                 okc = False
                 if cl:
-                    ct = lib.thir.get(canon(cl[0]['def']))
+                    ct = lib.ithir.get(canon(cl[0]['def']))
                     cs = [x for x in walk(ct['body']) if x['k'] == 'Call' and (callee_decl(x) == 'std::cmp::Ord::cmp')]
                     if len(cs) == 1:
                         a0, a1 = strip(cs[0]['args'][0]), strip(cs[0]['args'][1])
@@ -354,27 +379,16 @@ def rule_X3(F, R):
     if not ok:
         R.violation(PF + 'to_free_index / X3 / domain', 'X3', 'to_free_index does not yield a position in free_vars: %s' % why, t['span']['loc'] if t else None)
     # (2) free_vars is sorted by id: vars sorted by id before the loop that pushes into free_vars in order
-    t = lib.thir.get(PF + 'new_with_env')
+    t = lib.ithir.get(PF + 'new_with_env')
     ok = False
     if t:
-        sorts = [e for e in walk(t['body']) if e['k'] == 'Call' and (callee_name(e) or '').endswith('sort_by')]
-        okc = False
-        for s in sorts:
-            cl = [x for x in walk(s['args'][1]) if x['k'] == 'Closure']
-            if cl:
-                ct = lib.thir.get(canon(cl[0]['def']))
-                cs = [x for x in walk(ct['body']) if x['k'] == 'Call' and callee_decl(x) == 'std::cmp::Ord::cmp']
-                if len(cs) == 1:
-                    a0, a1 = strip(cs[0]['args'][0]), strip(cs[0]['args'][1])
-                    pn = [unwrap_pat(p['pat']).get('var') for p in ct['params'][1:]]
-                    okc = a0['k'] == 'Field' and a0['field_name'] == 'id' and a1['k'] == 'Field' and a1['field_name'] == 'id' and \
-                        root_var(a0['lhs']) == pn[0] and root_var(a1['lhs']) == pn[1]
+        okc = any(sorts_ascending_by_id(e, lib) for e in walk(t['body']) if e['k'] == 'Call' and 'sort' in (callee_name(e) or '').split('::')[-1])
         pushes = [e for e in walk(t['body']) if e['k'] == 'Call' and callee_name(e) == 'std::vec::Vec::push' and strip(e['args'][0]).get('field_name') == 'free_vars']
         ok = okc and len(pushes) == 1
     R.count('X3:ordering-of-free_vars'); R.obligation(ok, 'X3 sorted')
     if not ok: R.violation(PF + 'new_with_env / X3 / free_vars order', 'X3', 'vars is not sorted ascending by id before free_vars is filled in that order (header order and column look-up rely on it)')
     # (3) sequences in main and the printers
-    main = binc.thir.get('rsbdd::main')
+    main = binc.ithir.get('rsbdd::main')
     if main is None:
         R.violation('rsbdd::main / X3 / anchor', 'UNDECIDABLE', 'main not found'); return
     dom = {}
@@ -387,7 +401,18 @@ def rule_X3(F, R):
             if d in ('std::ops::Deref::deref', 'std::iter::Iterator::map', 'std::iter::Iterator::cloned', 'std::iter::Iterator::collect', 'std::clone::Clone::clone',
                      'std::iter::IntoIterator::into_iter', 'std::iter::Iterator::copied') or c in ('core::slice::<impl [T]>::iter', 'std::slice::<impl [T]>::to_vec'):
                 return dom_of(e['args'][0])
+            if c in ('std::vec::from_elem', 'alloc::vec::from_elem') and len(e['args']) == 2:      # vec![x; seq.len()]
+                n = strip(e['args'][1])
+                if n['k'] in ('VarRef', 'UpvarRef'): return lens.get(n['var'])
+                if n['k'] == 'Call' and (callee_name(n) or '') in ('core::slice::<impl [T]>::len', 'std::vec::Vec::len'): return dom_of(n['args'][0])
         return None
+    lens = {}      # variables holding the length of a sequence: var -> domain of that sequence
+    for s in stmts_in_order(main['body']):
+        if s['k'] == 'Let' and s['init'] is not None and unwrap_pat(s['pat'])['k'] == 'Binding':
+            n = strip(s['init'])
+            if n['k'] == 'Call' and (callee_name(n) or '') in ('core::slice::<impl [T]>::len', 'std::vec::Vec::len'):
+                d = dom_of(n['args'][0])
+                if d is not None: lens[unwrap_pat(s['pat'])['var']] = d
     for s in stmts_in_order(main['body']):
         if s['k'] == 'Let':
             q = unwrap_pat(s['pat'])
@@ -407,7 +432,7 @@ def rule_X3(F, R):
                 if d is not None: pdom.setdefault((callee_name(e), i), set()).add(d)
     R.sample({'rule': 'X3', 'sequence domains in main (|free_vars| + k)': {k.split('#')[0]: v for k, v in dom.items()}, 'parameter domains': {'%s#%d' % (k[0].split('::')[-1], k[1]): sorted(v) for k, v in pdom.items()}})
     def check_fn(fn, pd, depth=0):
-        t = binc.thir.get(fn)
+        t = binc.ithir.get(fn)
         if t is None: return
         vd = {}
         for i, p in enumerate(t['params']):
@@ -438,6 +463,8 @@ def rule_X3(F, R):
                                 if i0['k'] == 'Call' and (callee_name(i0) or '') in ('core::slice::<impl [T]>::len', 'std::vec::Vec::len'):
                                     d = seq_dom(i0['args'][0])
                                     if d is not None: idom[q['var']] = d + 1; changed = True
+                                if i0['k'] == 'Call' and callee_name(i0) == PF + 'to_free_index' and not q.get('mutable'):
+                                    idom[q['var']] = 0; changed = True
                 if e['k'] == 'Match':
                     sc = strip(e['scrutinee'])
                     # for (i, x) in seq.iter().enumerate()
@@ -504,7 +531,7 @@ def rule_X3(F, R):
 
 def table_write_domain(lib, tbl):
     """how a ParsedFormula table is filled: 'position in vars' if pushed once per element of vars, 'id' if assigned at [v.id]"""
-    t = lib.thir.get('rsbdd::parser::ParsedFormula::new_with_env')
+    t = lib.ithir.get('rsbdd::parser::ParsedFormula::new_with_env')
     if t is None or tbl is None: return 'unknown'
     for e in walk(t['body']):
         if e['k'] == 'Call' and callee_name(e) == 'std::vec::Vec::push' and strip(e['args'][0]).get('field_name') == tbl:
@@ -520,7 +547,7 @@ def table_write_domain(lib, tbl):
 # ------------------------------------------------------------------------------------------------ X4 data flow in main
 def rule_X4(F, R, clauses=('parse', 'order', 'model', 'retain', 'export', 'vars')):
     binc, lib = F.bin(), F.lib()
-    main = binc.thir.get('rsbdd::main')
+    main = binc.ithir.get('rsbdd::main')
     if main is None:
         R.violation('rsbdd::main / X4 / anchor', 'UNDECIDABLE', 'main not found'); return
     PF = 'rsbdd::parser::ParsedFormula::'
@@ -536,7 +563,7 @@ def rule_X4(F, R, clauses=('parse', 'order', 'model', 'retain', 'export', 'vars'
                         ('rsbdd::print_truth_table_recursive', 'table'), ('rsbdd::print_true_vars_recursive', 'vars'), ('rsbdd::bdd_io::BDDGraph::new', 'dot')):
             if calls_in(e, nm): pos.setdefault(key, []).append(i)
     if 'parse' in clauses:
-        n_new = sum(len(calls_in(t['body'], PF + 'new')) + len(calls_in(t['body'], PF + 'new_with_env')) for n_, t in binc.thir.items())
+        n_new = sum(len(calls_in(t['body'], PF + 'new')) + len(calls_in(t['body'], PF + 'new_with_env')) for n_, t in binc.ithir.items())
         ok = n_new == 1 and len(pos.get('parse', [])) == 1
         R.count('X4:parse-call-sites', n_new); R.obligation(ok, 'X4 single parse')
         if not ok: R.violation('rsbdd::main / X4 / single parse path', 'X4', 'the CLI must parse the formula at exactly one call site fed by all three input channels; found %d' % n_new)
@@ -559,24 +586,22 @@ def rule_X4(F, R, clauses=('parse', 'order', 'model', 'retain', 'export', 'vars'
             R.count('X4:input-channels', len(chans)); R.obligation(ok, 'X4 channels')
             if not ok: R.violation('rsbdd::main / X4 / input channels', 'X4', 'the single parser call is fed by %s, expected --evaluate, FILE and stdin' % sorted(chans))
     if 'order' in clauses:
-        call = calls_in(body, PF + 'new')
-        ok = False
-        if len(call) == 1:
-            ov = root_var(call[0]['args'][1])
-            init = None
-            for s in stmts:
-                if s['k'] == 'Let' and unwrap_pat(s['pat']).get('var') == ov: init = s['init']
-            if init is not None:
-                toks = calls_in(init, 'rsbdd::parser::SymbolicBDD::tokenize'); ex = calls_in(init, PF + 'extract_vars')
-                somes = [x for x in walk(init) if x['k'] == 'Adt' and canon(x['adt']) == 'std::option::Option' and x['variant'] == 'Some']
-                ok = len(toks) == 1 and len(ex) == 1 and len(somes) == 1 and root_var(somes[0]['fields'][0]['expr']) is not None
-                if ok:
-                    # Some(vars) where vars = extract_vars(&tokens), tokens = tokenize(ordering file, None)
-                    sv = root_var(somes[0]['fields'][0]['expr'])
-                    lets = {unwrap_pat(s['pat']).get('var'): s['init'] for b in walk(init) if b['k'] == 'Block' for s in b['stmts'] if s['k'] == 'Let'}
-                    ok = sv in lets and bool(calls_in(lets[sv], PF + 'extract_vars'))
+        # value provenance of the parser's ordering argument, whatever the code layout (if-let, Option::map, helper function):
+        #   args.ordering.map(p => extract_vars(tokenize(open(p), None)))
+        import flow
+        fl = flow.Flow(binc)
+        found = []
+        flow.scan(fl, body, {}, lambda x: x.get('k') == 'Call' and callee_name(x) == PF + 'new', found)
+        ok = False; got = None
+        if len(found) == 1:
+            node, env = found[0]
+            got = fl.ev(node['args'][1], env)
+            want = ('optmap', ('field', ('args',), 'ordering'), ('bound', 0),
+                    ('call', PF + 'extract_vars', (('call', 'rsbdd::parser::SymbolicBDD::tokenize', (('call', 'std::fs::File::open', (('bound', 0),)), ('none',))),)))
+            ok = flow.alpha_eq(got, want)
         R.count('X4:ordering-flow'); R.obligation(ok, 'X4 order')
-        if not ok: R.violation('rsbdd::main / X4 / ordering flow', 'X4', 'the variables of the -o file (tokenize + extract_vars, in order of first appearance) must be the ordering argument of the parser')
+        if not ok: R.violation('rsbdd::main / X4 / ordering flow', 'X4', 'the ordering argument of the parser must be the variables of the -o file in order of first appearance, '
+                               'args.ordering.map(p => extract_vars(tokenize(open(p), None))); found %s' % (flow.show(got) if got is not None else '%d parser call(s)' % len(found)))
     if 'model' in clauses or 'retain' in clauses:
         printers = [i for k in ('table', 'vars', 'dot') for i in pos.get(k, [])]
         for key, fnn, flag in (('model', 'rsbdd::bdd::BDDEnv::model', 'model'), ('retain', 'rsbdd::bdd::BDDEnv::retain_choice_bottom_up', 'retain_choices')):
@@ -617,25 +642,16 @@ def rule_X4(F, R, clauses=('parse', 'order', 'model', 'retain', 'export', 'vars'
         ok = False
         for e in walk(body):
             if e['k'] == 'If' and 'export_ordering' in [x.get('field_name') for x in walk(e['cond']) if x['k'] == 'Field']:
-                sorts = [x for x in walk(e['then']) if x['k'] == 'Call' and (callee_name(x) or '').endswith('sort_by')]
+                sorts = [x for x in walk(e['then']) if x['k'] == 'Call' and 'sort' in (callee_name(x) or '').split('::')[-1]]
                 src = [x for x in walk(e['then']) if x['k'] == 'Field' and x.get('field_name') == 'vars']
                 prints = calls_in(e['then'], 'std::io::_print')
-                okc = False
-                if len(sorts) == 1:
-                    cl = [x for x in walk(sorts[0]['args'][1]) if x['k'] == 'Closure']
-                    if cl:
-                        ct = binc.thir.get(canon(cl[0]['def']))
-                        cs = [x for x in walk(ct['body']) if x['k'] == 'Call' and callee_decl(x) == 'std::cmp::Ord::cmp']
-                        if len(cs) == 1:
-                            a0, a1 = strip(cs[0]['args'][0]), strip(cs[0]['args'][1])
-                            pn = [unwrap_pat(p['pat']).get('var') for p in ct['params'][1:]]
-                            okc = a0.get('field_name') == 'id' and a1.get('field_name') == 'id' and root_var(a0['lhs']) == pn[0] and root_var(a1['lhs']) == pn[1]
+                okc = len(sorts) == 1 and sorts_ascending_by_id(sorts[0], binc)
                 ok = okc and bool(src) and bool(prints)
         R.count('X4:export-ordering'); R.obligation(ok, 'X4 export')
         if not ok: R.violation('rsbdd::main / X4 / -r', 'X4', '-r must print input_parsed.vars sorted ascending by id')
     if 'vars' in clauses:
         # ParsedFormula.vars = extract_vars(tokens) sorted by id; extract_vars = Var tokens, unique
-        t = lib.thir.get(PF + 'extract_vars')
+        t = lib.ithir.get(PF + 'extract_vars')
         ok = False
         if t:
             uniq = [x for x in walk(t['body']) if x['k'] == 'Call' and callee_name(x) == 'itertools::Itertools::unique']
@@ -643,7 +659,7 @@ def rule_X4(F, R, clauses=('parse', 'order', 'model', 'retain', 'export', 'vars'
             ok = len(uniq) == 1 and len(fm) == 1
             if ok:
                 cl = [x for x in walk(fm[0]['args'][1]) if x['k'] == 'Closure']
-                ct = lib.thir.get(canon(cl[0]['def'])) if cl else None
+                ct = lib.ithir.get(canon(cl[0]['def'])) if cl else None
                 ok = False
                 if ct:
                     arms = [a for m in walk(ct['body']) if m['k'] == 'Match' for a in m['arms']]
@@ -651,7 +667,7 @@ def rule_X4(F, R, clauses=('parse', 'order', 'model', 'retain', 'export', 'vars'
                     ok = len(some_arms) == 1 and unwrap_pat(some_arms[0]['pat']).get('variant') == 'Var'
         R.count('X4:extract_vars'); R.obligation(ok, 'X4 extract_vars')
         if not ok: R.violation(PF + 'extract_vars / X4 / all variables once', 'X4', 'extract_vars must return every Var token exactly once (filter_map on Var + unique)')
-        t = lib.thir.get(PF + 'new_with_env')
+        t = lib.ithir.get(PF + 'new_with_env')
         ok = False
         if t:
             # free_vars.push(v.clone()) under `if var_is_free(&result, &result.bdd, v)`, v iterating result.vars
@@ -674,7 +690,7 @@ def rule_X4(F, R, clauses=('parse', 'order', 'model', 'retain', 'export', 'vars'
 def rule_X5(F, R):
     lib = F.lib()
     fn = 'rsbdd::parser::SymbolicBDD::tokenize'
-    t = lib.thir.get(fn)
+    t = lib.ithir.get(fn)
     if t is None:
         R.violation(fn + ' / X5 / anchor', 'UNDECIDABLE', 'tokenize not found'); return
     n = 0
@@ -786,12 +802,12 @@ def rule_X6(F, R, parts=('coverage', 'labels')):
     rf = recursive_fields(lib)
     R.count('X6:variants', len(rf)); R.count('X6:recursive-fields', sum(len(v) for v in rf.values()))
     T = 'rsbdd::parser_io::SymbolicParseTree::'
-    tn = lib.thir.get(T + 'nodes_recursive')
-    te = [k for k in lib.thir if k.endswith('GraphWalk>::edges') and 'SymbolicParseTree' in k]
-    tl = [k for k in lib.thir if k.endswith('Labeller>::node_label') and 'SymbolicParseTree' in k]
+    tn = lib.ithir.get(T + 'nodes_recursive')
+    te = [k for k in lib.ithir if k.endswith('GraphWalk>::edges') and 'SymbolicParseTree' in k]
+    tl = [k for k in lib.ithir if k.endswith('Labeller>::node_label') and 'SymbolicParseTree' in k]
     if tn is None or not te or not tl:
         R.violation('rsbdd::parser_io / X6 / anchor', 'UNDECIDABLE', 'parse-tree exporter functions not found'); return
-    te = lib.thir[te[0]]; tl = lib.thir[tl[0]]
+    te = lib.ithir[te[0]]; tl = lib.ithir[tl[0]]
     def coverage(t, is_use, what):
         cov = {}
         for m in walk(t['body']):
@@ -830,7 +846,7 @@ def rule_X6(F, R, parts=('coverage', 'labels')):
                     if is_edge_push(e):
                         for x in walk(e):
                             if x['k'] == 'Closure':
-                                ct = lib.thir.get(canon(x['def']))
+                                ct = lib.ithir.get(canon(x['def']))
                                 if ct:
                                     for y in walk(ct['body']):
                                         if y['k'] in ('UpvarRef', 'VarRef'): seen.add(y['var'])
